@@ -28,7 +28,7 @@ func TestSmoke(t *testing.T) {
 	seed := uint64(envInt("VERIF_SEED", 1))
 	first := envInt("VERIF_FIRST", 0)
 	for i := first; i < first+n; i++ {
-		res := cs.RunOne(t, cs.RunSpec{Property: prop, Seed: seed, Index: i, Trace: os.Getenv("VERIF_TRACE") != ""})
+		res := dispatchRun(t, cs.RunSpec{Property: prop, Seed: seed, Index: i, Trace: os.Getenv("VERIF_TRACE") != ""})
 		fmt.Printf("run %d: steps=%d reqs=%d passes=%d sim=%.0fs viol=%d incid=%d exercised=%v inconcl=%v mach=%q faults=%v\n",
 			i, res.Steps, res.Requests, res.Passes, res.SimSeconds, len(res.Viol), len(res.Incidental), res.Exercised, res.Inconcl, res.Machinery, res.Faults)
 		if os.Getenv("VERIF_TRACE") != "" {
